@@ -61,6 +61,19 @@ class LockStep:
             accumulation=case.get('accum', 1), in_hook=case.get('in_hook', True),
             factor_dtype=self.fd, grad_scale=self.scale)
         self.live = [v for v in list(self.kw.values()) + list(self.ref.hp.values()) if hasattr(v, 'set_iter')]
+        # optional bystander: a second, independent model of the same architecture (hence the same layer names) with its own
+        # preconditioner, created later in the same process and trained in between; it must not influence the first one
+        self.by_model = self.by_pre = None
+        self.by_count = 0
+        if case.get('bystander'):
+            self.by_model = kmodel.build_model(dict(case['spec'], seed=case['spec'].get('seed', 0) + 1), self.pd)
+            kw2 = dict(self.kw)
+            for k in HP_KEYS:
+                if k in self.hp_json:
+                    kw2[k] = hp_callable(self.hp_json[k])
+            with warnings.catch_warnings():
+                warnings.simplefilter('ignore')
+                self.by_pre = KFACPreconditioner(self.by_model, **kw2)
         self.snap = None
         self.sched = None
         self.sched_json = case.get('scheduler')
@@ -74,6 +87,26 @@ class LockStep:
         self.eps_factor = refkfac.EPS[self.fd or self.pd]
         self.stats = {'worst_grad': 0.0, 'worst_factor': 0.0, 'max_tol': 0.0, 'informative_steps': 0}
         self.events = []      # (step index, factor_update, refresh) for non-triviality rules
+
+    def bystander_micro(self, seed):
+        """One train-mode micro-batch of the bystander; it steps whenever it has seen accumulation_steps of them."""
+        if self.by_model is None:
+            return
+        c = self.case
+        accum = c.get('accum', 1)
+        if self.by_count == 0:
+            self.by_model.zero_grad(set_to_none=True)
+        self.by_model.train()
+        x = kmodel.make_input(c['spec'], c.get('N', 2), seed * 7 + 4243 + self.by_count, c.get('style', 'gauss'), self.pd)
+        loss = kmodel.loss_of(self.by_model(x), seed + 17, c.get('N', 2))
+        ((loss * self.scale) if self.scale else loss).backward()
+        self.by_count += 1
+        if self.by_count == accum:
+            self.by_count = 0
+            for p in self.by_model.parameters():
+                if p.grad is not None:
+                    p.grad /= ((self.scale or 1.0) * accum)
+            self.by_pre.step()
 
     def _scale_at(self, i):
         v = self.scale_json
@@ -100,7 +133,7 @@ class LockStep:
         ((loss2 * self.scale) if self.scale else loss2).backward()
         return y, y2
 
-    def train_iter(self, seed, sizes=None, reset_after=None, check=True):
+    def train_iter(self, seed, sizes=None, reset_after=None, check=True, by=()):
         c = self.case
         accum = c.get('accum', 1)
         sizes = sizes or [c.get('N', 2)] * accum
@@ -131,6 +164,8 @@ class LockStep:
             recs = self.rec.pop()
             self.max_rows = max(self.max_rows, max(refkfac.input_rows(self.tmods[nm], recs[nm][0][0]).shape[0] for nm in self.names))
             self.ref.observe([{nm: (recs[nm][0][0], recs[nm][1][0]) for nm in self.names}])
+            if item in by:
+                self.bystander_micro(seed + item)
         for m in (self.model, self.twin):
             for p in m.parameters():
                 if p.grad is not None:
